@@ -141,6 +141,29 @@ def classes():
     return d
 
 
+TINY = ('<?xml version="1.0" encoding="utf-8"?><COLLADA xmlns="http://www.collada.org/2005/11/COLLADASchema" version="1.4.1">'
+        '<asset><created>2020-01-01T00:00:00Z</created><modified>2020-01-01T00:00:00Z</modified></asset>'
+        '<library_images><image id="i0"><init_from>missing.png</init_from></image></library_images></COLLADA>')
+_OTHER_DOCUMENTS = []
+
+
+def other_documents_prelude():
+    """process state: OTHER documents of the same process - created empty and loaded from a file object with
+    default arguments, and loaded with the caller's own ignore list - on which the public ignoreErrors() is used.
+    Nothing done to them may change how a later document loads."""
+    import collada
+    import collada.common as cc
+    a = collada.Collada()
+    a.ignoreErrors(cc.DaeError)
+    b = collada.Collada(io.BytesIO(TINY.encode()))
+    b.ignoreErrors(cc.DaeBrokenRefError, cc.DaeMalformedError, cc.DaeIncompleteError)
+    mine = [cc.DaeUnsupportedError]
+    c = collada.Collada(io.BytesIO(TINY.encode()), ignore=mine)
+    c.ignoreErrors(cc.DaeError)
+    _OTHER_DOCUMENTS[:] = [a, b, c]          # they stay alive while the case runs
+    return mine
+
+
 def load(data, ignore, traced=False):
     """-> dict(esc, esc_name, errs, loaded, snapshot, trace, col)"""
     import collada
@@ -165,7 +188,10 @@ def load(data, ignore, traced=False):
     cls = Traced if traced else Held
     esc = None
     try:
-        cls(io.BytesIO(data), ignore=ignore)
+        if ignore is None:
+            cls(io.BytesIO(data))          # default arguments: the keyword is really omitted
+        else:
+            cls(io.BytesIO(data), ignore=ignore)
     except BaseException as e:  # noqa
         if isinstance(e, (KeyboardInterrupt, SystemExit, MemoryError)):
             raise
@@ -346,6 +372,7 @@ def run_doc_case(case, bases, base_cache):
             return None
         return [None if n == 'None' else K[n] for n in names]
 
+    mine = other_documents_prelude()
     strict = load(data, None)
     runs = []
     by_name = {}
@@ -363,6 +390,11 @@ def run_doc_case(case, bases, base_cache):
         if not wf and r['esc_name'] != 'DaeMalformedError':
             fail('malformed-xml', 'malformed XML with ignore=%s gives %s instead of DaeMalformedError'
                  % (names, r['esc_name']), r['esc_name'])
+    again = load(data, mine)          # the list object another document was created with and then extended its own mask
+    if (again['esc_name'], again['errs']) != (strict['esc_name'], strict['errs']) and wf and strict['esc_dae'] \
+            and 'DaeUnsupportedError' not in by_name['base']['err_names'] and strict['esc_name'] != 'DaeUnsupportedError':
+        fail('unlisted-aborts', 'a list used as ignore= for ANOTHER document, whose mask was extended afterwards, now ignores more: '
+                                '%s/%s instead of %s' % (again['esc_name'], again['err_names'], strict['esc_name']))
     tr = load(data, [K['DaeError']], traced=True)
     events = events_of(tr)
     full = by_name['base']
@@ -490,6 +522,7 @@ def run_mask_case(case):
     K = classes()
     ops = case['ops']
     rest = ops
+    before_doc = collada.Collada()
     if case.get('ctor') and ops and ops[0][0] == 'add':
         col = collada.Collada(io.BytesIO(case['doc'].encode()), ignore=[K[n] for n in ops[0][1]])
         rest = ops[1:]
@@ -537,6 +570,21 @@ def run_mask_case(case):
             if r is not None:
                 check('DaeBrokenRefError', r, 'reading CImage.data of a missing file')
                 steps.append(['probe', 2, r != 'swallowed'])
+    # other documents of the process: one created before these calls, one after, one loaded with default arguments
+    after = collada.Collada()
+    loaded = collada.Collada(io.BytesIO(TINY.encode()))
+    for name, other in (('created before', before_doc), ('created afterwards', after), ('loaded afterwards', loaded)):
+        if list(other.maskedErrors):
+            fails.append({'signature': 'C08:mask:leaks-to-other-document', 'clause': 'mask',
+                          'what': 'ignoreErrors history %s on one document left %r in the mask of another document (%s, default '
+                                  'arguments)' % (ops, other.maskedErrors, name)})
+            break
+        r = probe_handle(other, cc.DaeBrokenRefError('probe'))
+        if r != 'raised':
+            fails.append({'signature': 'C08:mask:leaks-to-other-document', 'clause': 'mask',
+                          'what': 'after the ignoreErrors history %s on one document, a DaeBrokenRefError handed to ANOTHER document '
+                                  '(%s, default arguments) is %s' % (ops, name, r)})
+            break
     return {'steps': steps, 'mask_len': len(col.maskedErrors), 'fails': fails[:2]}
 
 
